@@ -172,9 +172,15 @@ def gen_program(rng, pid, kind=None):
         next_ev[0] += 1
         return next_ev[0]
 
+    deep = (pid % 12 == 11)                          # every 12th program has a branch with 9-12 steps (few atoms per step)
+    if deep:
+        n = rng.choice([1, 2, 2, 3])
+        density = 0.25
     branches = []
     for b in range(n):
         depth = rng.choice([1, 2, 2, 3, 3])
+        if deep and b == n - 1:
+            depth = rng.randint(9, 12)
         br = []
         for k in range(depth):
             ngates = 0
@@ -182,7 +188,7 @@ def gen_program(rng, pid, kind=None):
                 ngates = 1
                 if rng.random() < density * 0.6:
                     ngates = 2
-            nev = rng.choice([0, 1, 1, 2, 3])
+            nev = rng.choice([0, 1, 1, 2, 3]) if not deep else rng.choice([1, 1, 2])
             body = ['g'] * ngates + ['e'] * nev
             rng.shuffle(body)                        # gates at varied positions
             if rng.random() < pfail:
